@@ -19,6 +19,7 @@ import (
 
 // Sess is one case of the Conn family: it accumulates the op lines and runs the implementation.
 type Sess struct {
+	wscratch []byte // reused write buffer (see Write)
 	Keys  []ech.Key
 	Ops   []core.Op
 	Fake  *FakeConn
@@ -276,7 +277,17 @@ func (s *Sess) Write(b []byte) IORes {
 				res.Panic = fmt.Sprint(r)
 			}
 		}()
-		k, err := s.Conn.Write(b)
+		// the caller's buffer is reused, as an io.Copy relay loop does: the Conn is given a view of a
+		// scratch buffer that is overwritten as soon as Write returns, so bytes it keeps for later must be its own copy
+		if cap(s.wscratch) < len(b) {
+			s.wscratch = make([]byte, len(b)+1024)
+		}
+		view := s.wscratch[:len(b)]
+		copy(view, b)
+		k, err := s.Conn.Write(view)
+		for i := range view {
+			view[i] = 0xA5
+		}
 		res.N = k
 		res.Err = ErrClass(err)
 	}()
